@@ -38,7 +38,8 @@ def handlerOf? (j : Json) : Option Handler := do
   let r ← jStr? (← jField? j "reason") >>= typeOf?
   let o ← jOpt? jStrList? (← jField? j "operations")
   let s ← jOpt? jStr? (← jField? j "subresource")
-  some ⟨i, r, o, s⟩
+  let f ← jStr? (← jField? j "fn")
+  some ⟨i, r, o, s, f⟩
 
 def causeOf? (j : Json) : Option Cause := do
   let r ← jOpt? (fun x => jStr? x >>= typeOf?) (← jField? j "reason")
@@ -104,7 +105,7 @@ def handle : DrvHandler := fun op args =>
       let fns ← (← jArr? fns).mapM fnOf?
       let ops ← (← jArr? ops).mapM toJ
       let act : Handler → Act := fun h =>
-        match es.find? (fun e => e.1.1.id == h.id) with
+        match es.find? (fun e => e.1.1.key == h.key) with
         | some e => e.2
         | none => ⟨[], none⟩
       match serve (fun _ _ => ops) (es.map (·.1)) c act b p fns with
@@ -113,6 +114,10 @@ def handle : DrvHandler := fun op args =>
   | "C18.ruleops", [h] => do
       let h ← handlerOf? h
       some (ok (.arr ((managedRuleOps h).map Json.str).toArray))
+  | "C18.select", [entries, c] => do
+      let es ← (← jArr? entries).mapM entryOf?
+      let c ← causeOf? c
+      some (ok (.arr ((select (es.map (·.1)) c).map (fun h => Json.arr #[.str h.fn, .str h.id])).toArray))
   | "C18.gate", [h, c, m] => do
       let h ← handlerOf? h
       let c ← causeOf? c
